@@ -24,7 +24,8 @@ LEVEL = "exploration"
 RULE = ("uploads: body size {0,1,16383,16384,16385,65535,65536,100k,1M(,5M)} x body chunking {one, 1000-byte, 70000-byte, "
         "mixed} x server INITIAL_WINDOW_SIZE {1,100,16384,65535,1M} x MAX_FRAME_SIZE {16384,65536,2^24-1} x credit policy "
         "{auto, drip:1, drip:1000, stream-first, conn-first, late, big-once} x 1-3 uploads sharing the connection window x "
-        "flavour (bounded to <= 6000 DATA frames per transfer); downloads {0,1,65535,1M,17M(,40M)}; distinct+non-trivial = "
+        "flavour (bounded to <= 6000 DATA frames per transfer); downloads {0,1,65535,1M,17M(,40M)}; 1100 x 16384-byte responses "
+        "on one connection (each ending with a data-carrying END_STREAM frame; 18 MB > the 16 MiB credit); distinct+non-trivial = "
         "parameter tuple in which a window actually closed (ledger minimum <= 0) or the download exceeded the initial credit")
 ASSUMPTIONS = ["window accounting per RFC 9113 6.9 with the most permissive of old/new INITIAL_WINDOW_SIZE / MAX_FRAME_SIZE until "
                "the client ACKs", "the endpoint gives credit only as its policy says; policy 'big-once' sends one large "
@@ -64,8 +65,12 @@ async def run_upload(flavor, p, cnt, v, sigs):
     net = simnet.Net()
     net.log_events = False
     settings = {SC_MCS: 100, SC_IWS: p["iws"], SC_MFS: p["mfs"]}
-    origin = endpoints.Origin(net, "o.test", 443, tls=True, alpn=["h2"],
-                              h2_script={"settings": settings, "win": p["policy"]})
+    script = {"settings": settings, "win": p["policy"]}
+    if p.get("iws_change") is not None:
+        # the server changes INITIAL_WINDOW_SIZE while the upload is in progress (RFC 9113 6.9.2: a decrease can make
+        # the stream window negative; the sender must wait until it is positive again)
+        script["actions"] = [{"when": ("head", 0), "do": "settings", "settings": {SC_IWS: p["iws_change"]}}]
+    origin = endpoints.Origin(net, "o.test", 443, tls=True, alpn=["h2"], h2_script=script)
     pool = mk_pool(flavor, net, http2=True, max_connections=1)
     api = API(flavor, pool, net)
     bodies = {}
@@ -98,11 +103,11 @@ async def run_upload(flavor, p, cnt, v, sigs):
             exhausted = True
     if exhausted:
         cnt["windows_exhausted"] += 1
-        sigs.add(f"up|{p['size']}|{p['chunking']}|{p['iws']}|{p['mfs']}|{p['policy']}|{p['n']}|{flavor}")
+        sigs.add(f"up|{p['size']}|{p['chunking']}|{p['iws']}|{p['mfs']}|{p['policy']}|{p['n']}|{p.get('iws_change')}|{flavor}")
     cnt["oracle_progress"] += 1
     if out.kind == "hang":
         by = {r_.token.decode(): len(r_.body) for r_ in origin.requests if r_.token}
-        v(f"upload-starved:{p['policy']}:n{p['n']}", f"upload(s) never completed; bytes that reached the server {by} of "
+        v(f"upload-starved:{p['policy']}:n{p['n']}" + (":iws-change" if p.get("iws_change") is not None else ""), f"upload(s) never completed; bytes that reached the server {by} of "
           f"{p['size']} each; connection window at server {srv[0].ledger.conn_window if srv else None}, stream windows "
           f"{dict(srv[0].ledger.stream_window) if srv else None}", ctx)
     else:
@@ -177,6 +182,49 @@ async def run_download(flavor, p, cnt, v, sigs):
     await guarded(flavor, api.close_pool)
 
 
+async def run_many_downloads(flavor, p, cnt, v, sigs):
+    """Many responses on ONE connection, each ending with a data-carrying END_STREAM frame: the connection-level
+    credit consumed by all of them together exceeds the client's initial 16 MiB, so credit must be returned for
+    every DATA frame, including the last one of each stream."""
+    net = simnet.Net()
+    net.log_events = False
+    size = p["size"]
+
+    def responder(req, origin):
+        return Resp(200, b"OK", [(b"X-Echo", req.token or b"-")], b"m" * size)
+
+    origin = endpoints.Origin(net, "o.test", 443, tls=True, alpn=["h2"], responder=responder,
+                              h2_script={"settings": {SC_MCS: 100}, "data_chunk": 16384})
+    pool = mk_pool(flavor, net, http2=True, max_connections=1)
+    api = API(flavor, pool, net)
+    done = {"n": 0}
+
+    async def many():
+        for i in range(p["count"]):
+            r_ = await api.request("GET", "https://o.test/m", headers=[("X-Token", f"m{i}")])
+            if len(r_.content) != size:
+                return False
+            done["n"] += 1
+        return True
+
+    out = await guarded(flavor, many)
+    cnt["transfers"] += done["n"]
+    cnt["oracle_progress"] += 1
+    cnt["downloads_beyond_credit"] += 1
+    ctx = {"params": p, "flavor": flavor}
+    sigs.add(f"many|{size}|{p['count']}|{flavor}")
+    srv = [c.h2 for c in origin.conns if c.h2 is not None]
+    win = srv[0].conn.outbound_flow_control_window if srv else None
+    if out.kind == "hang":
+        v("download-stalled:many-responses", f"response {done['n'] + 1} of {p['count']} x {size} bytes on one connection never "
+          f"arrived: the server's view of the client's connection window is {win} (credit for consumed DATA not returned)", ctx)
+    elif out.kind != "ok" or out.value is not True:
+        v(f"download-failed:many-responses:{exc_name(out.exc) if out.kind == 'exc' else 'short'}", f"{out!r}", ctx)
+    elif len(net.transports) != 1:
+        v("many-responses-not-on-one-connection", f"{len(net.transports)} connections", ctx)
+    await guarded(flavor, api.close_pool)
+
+
 def run_case(case):
     flavor = case["flavor"]
     viol = []
@@ -192,6 +240,8 @@ def run_case(case):
         for p in case["params"]:
             if p["dir"] == "up":
                 await run_upload(flavor, p, cnt, v, sigs)
+            elif p["dir"] == "many":
+                await run_many_downloads(flavor, p, cnt, v, sigs)
             else:
                 await run_download(flavor, p, cnt, v, sigs)
             if not sample:
@@ -218,8 +268,13 @@ def plan(tier, seed):
             frames = size
         if frames * n > 6000:
             continue
+        chg = None
+        if r.random() < 0.2 and pol in ("auto", "drip:1000", "stream-first", "conn-first") and size >= 16384:
+            chg = r.choice([100, 4096, 16384, 200_000])
+            if size / max(1, min(chg, iws, 16384)) * n > 6000:
+                chg = None
         params.append({"dir": "up", "size": size, "chunking": r.choice(["one", "1000", "70000", "mixed"]), "iws": iws, "mfs": mfs,
-                       "policy": pol, "n": n, "seed": r.randrange(1 << 30)})
+                       "policy": pol, "n": n, "seed": r.randrange(1 << 30), "iws_change": chg})
     downs = [0, 1, 65535, 1_000_000, 17 * 2 ** 20] + ([40 * 2 ** 20] if tier != "quick" else [])
     for size in downs:
         for dc in ([16384] if size > 2 ** 20 else [1, 16384] if size <= 65535 else [16384, 4000]):
@@ -234,5 +289,8 @@ def plan(tier, seed):
     for i, p in enumerate(big):
         for f in (flavors if tier != "quick" else [flavors[i % 3]]):
             cases.append({"flavor": f, "params": [p], "seed": seed + 100 + i})
-    cases.sort(key=lambda c: -max(p["size"] for p in c["params"]))
+    for i, (size, count) in enumerate([(16384, 1100), (1, 200), (16385, 600)] + ([(100, 3000), (16384, 2600)] if tier != "quick" else [])):
+        for f in (flavors if tier != "quick" or size == 16384 else [flavors[i % 3]]):
+            cases.append({"flavor": f, "params": [{"dir": "many", "size": size, "count": count}], "seed": seed + 200 + i})
+    cases.sort(key=lambda c: -max(p["size"] * p.get("count", 1) for p in c["params"]))
     return cases
